@@ -7,7 +7,7 @@ wt = f"/tmp/wt-{pid.lower()}{rnd}"
 prior = ""
 if rnd:
     import os
-    f = "/verif/notes/round1_descriptions.json"
+    f = "/verif/notes/prior_descriptions.json" if os.path.exists("/verif/notes/prior_descriptions.json") else "/verif/notes/round1_descriptions.json"
     if os.path.exists(f):
         items = json.load(open(f)).get(pid, [])
         if items:
@@ -41,7 +41,7 @@ For each change k = 1, 2, 3 write into the directory {wt}/seeded_out/m<k>/ :
   - notes.md   : 5-10 lines: what was changed, why it breaks the property, what is needed for it to manifest, and the exact commands you ran with their observed results (demo with/without the change; test suite result).
 
 HOW TO RUN THINGS (use exactly this interpreter; PYTHONPATH makes your worktree's sources take precedence over the installed copy):
-  full test suite (about 30 s):  cd {wt} && PYTHONPATH={wt}/src /venv/bin/python -m pytest tests -q -p no:cacheprovider -n 8 2>&1 | tail -5
+  full test suite (about 30 s):  cd {wt} && PYTHONPATH={wt}/src /venv/bin/python -m pytest tests -q -p no:cacheprovider -n 4 --timeout=900 2>&1 | tail -5
   baseline on the pristine tree is 3340 passed (some skipped). A change is only acceptable if the same number of tests pass with it.
 WORKFLOW per change: edit -> run the full suite (must stay green) -> write and run demo.py (must fail) -> save patch.diff -> `git -C {wt} checkout -- src` to restore the pristine tree -> run demo.py again (must pass) -> next change. Leave the worktree pristine (apart from seeded_out/) when you finish.
 
